@@ -18,7 +18,7 @@ EXPLANATION = (
     "with the ground truth's label – R-THRLABEL); (3) the critical-region wiring of evaluate_frame (R-KW, R-KW-splat, R-TF, same filter "
     "parameters and transforms for results and ground truth); (4) filter_object_results applies the predicate to estimate and ground "
     "truth with the same bounds and drops the result when either fails; (5) PassFailResult.evaluate hands the same labels / mode / "
-    "thresholds to the positive and the negative side. Does not decide: the counting identities as arithmetic over runtime lists (they "
+    "thresholds to the positive and the negative side; the decision table of the filter predicate _is_target_object itself (rule shared with C10: every configured criterion is tested on the ego-frame value whenever transforms are given - `is not None`, not truthiness: an empty TransformDict is falsy). Does not decide: the counting identities as arithmetic over runtime lists (they "
     "follow from 1 by summation), the truth of the opaque predicates on concrete objects."
 )
 
@@ -392,6 +392,8 @@ def run(ctx: Ctx) -> None:
     ctx.run(rule_filter_both)
     ctx.run(rule_siblings)
     ctx.run(rule_critical)
+    from rules import C10
+    ctx.run(C10.rule_predicate)  # 'nothing outside the critical region is counted' rests on the filter predicate's decision table
     scope = ("perception_eval.evaluation.result", "perception_eval.evaluation.matching", "perception_eval.manager") if ctx.tier == "quick" else G.full_scope(ctx)
     ctx.run(G.rule_kw, scope)
     ctx.run(G.rule_kw_splat, scope, min_sites=4)
